@@ -88,29 +88,63 @@ Print Assumptions writer_calls_return_refuted_before_repair.
     caches are not modelled. *)
 Theorem reader_faults_sound_partial :
   forall f x trans seekk ops,
-    let '(s0, e0) := ropen true f x trans seekk in
-    let s := exec true s0 ops in
-    file s = f /\ (cvalid s = true -> member_at f (cbase s) = Some (chsize s, cdata s)).
+    let '(s0, e0) := ropen rfixed f x trans seekk in
+    let s := exec rfixed s0 ops in
+    file s = f /\ croff s = r_pos (src s) /\
+    (cvalid s = true -> member_at f (cbase s) = Some (chsize s, cdata s)).
 Proof. exact reader_blocks_sound_gen. Qed.
 Print Assumptions reader_faults_sound_partial.
+
+(** Retry after a failed Seek: in any reachable state, if a Seek fails (in the
+    underlying seeker or while fetching) and a later Seek to the same member
+    returns nil, the reader stands on exactly that member: base, data and
+    offset are the requested ones.  (The count reader's offset, [croff], is in
+    register with the true source position [r_pos] in every reachable state —
+    second conjunct of the theorem above — because countReader.seek records
+    the offset only after a successful underlying Seek.) *)
+Theorem reader_seek_retry_sound :
+  forall f x trans seekk ops m w w',
+    let '(s0, _) := ropen rfixed f x trans seekk in
+    let s := exec rfixed s0 ops in
+    forall s1 e1 s2, do_seek rfixed s m w = (s1, e1) -> e1 <> 0 ->
+      do_seek rfixed s1 m w' = (s2, 0) ->
+      cvalid s2 = true /\ cbase s2 = base_of f m /\ coff s2 = w' /\
+      member_at f (base_of f m) = Some (chsize s2, cdata s2).
+Proof. exact seek_retry_gen. Qed.
+Print Assumptions reader_seek_retry_sound.
+
+(** countReader.seek recording the offset before the underlying Seek is known
+    to have succeeded (variant rv_late = false): Seek(member 2) fails, the
+    retry returns nil without seeking and Read serves member 1's bytes. *)
+Theorem reader_seek_retry_refuted_for_early_offset :
+  exists f ops,
+    let v := {| rv_inval := true; rv_late := false |} in
+    let '(s0, _) := ropen v f (-1) 0 0 in
+    run_ops v s0 ops = [(1, []); (0, []); (0, [3; 4])] /\
+    run_ops rfixed s0 ops = [(1, []); (0, []); (0, [5; 6])].
+Proof. exact seek_retry_refuted_gen. Qed.
+Print Assumptions reader_seek_retry_refuted_for_early_offset.
 
 (** The reader before the repair (commit 9ba0cc7): after a failed fetch of
     member 1 the current block is based at member 1 but holds member 0's data,
     and Seek(member 1); Read returns those bytes with a nil error. *)
 Theorem reader_faults_sound_refuted_before_repair :
   exists f x ops,
-    let '(s0, _) := ropen false f x 0 (-1) in
-    let s := exec false s0 ops in
+    let '(s0, _) := ropen {| rv_inval := false; rv_late := true |} f x 0 (-1) in
+    let s := exec {| rv_inval := false; rv_late := true |} s0 ops in
     cvalid s = true /\ member_at f (cbase s) <> Some (chsize s, cdata s) /\
-    exists m, run_ops false s0 (ops ++ [RSeek m 0; RRead 2]) = run_ops false s0 ops ++ [(0, []); (0, [1; 2])]
+    exists m, run_ops {| rv_inval := false; rv_late := true |} s0 (ops ++ [RSeek m 0; RRead 2])
+              = run_ops {| rv_inval := false; rv_late := true |} s0 ops ++ [(0, []); (0, [1; 2])]
               /\ base_of f (Z.to_nat m) = 74.
 Proof. exact reader_stale_block_gen. Qed.
 Print Assumptions reader_faults_sound_refuted_before_repair.
 
-(** The code in /repo is the repaired one. *)
-Theorem reader_source_invalidates : bgzf_reader_invalidates = true.
+(** The code in /repo is the repaired one: the block is invalidated on a failed
+    fetch and countReader.seek records its offset after the underlying Seek
+    (both read off the source by gen/ on every run). *)
+Theorem reader_source_variant : reader_variant = rfixed.
 Proof. exact reader_invalidates. Qed.
-Print Assumptions reader_source_invalidates.
+Print Assumptions reader_source_variant.
 
 (** Non-vacuity: a faulty run of the model that ends with every call returned,
     the failure reported by Write and by Close, and all threads terminated. *)
@@ -121,6 +155,6 @@ Example writer_run_example :
 Proof. vm_compute. repeat split; reflexivity. Qed.
 
 Example reader_run_example :
-  let '(s0, e0) := ropen true [(74, [1; 2]); (85, [3; 4]); (28, [])] 80 0 (-1) in
-  run_ops true s0 [RRead 2; RRead 1; RSeek 1 0; RRead 2] = [(0, [1; 2]); (1, []); (1, []); (1, [])].
+  let '(s0, e0) := ropen rfixed [(74, [1; 2]); (85, [3; 4]); (28, [])] 80 0 (-1) in
+  run_ops rfixed s0 [RRead 2; RRead 1; RSeek 1 0; RRead 2] = [(0, [1; 2]); (1, []); (1, []); (1, [])].
 Proof. vm_compute. reflexivity. Qed.
